@@ -413,6 +413,11 @@ func (t *ftr) call(x *ast.CallExpr) (string, gtype) {
 			}
 			t.fail(x, "builtin %s", b.Name())
 		}
+		if fn, ok := o.(*types.Func); ok && fn.Pkg() != nil && strings.HasSuffix(fn.Pkg().Path(), "util") &&
+			(fn.Name() == "StringFromBytes" || fn.Name() == "BytesFromString") && t.T.byObj[o] == nil && len(x.Args) == 1 {
+			// zero-copy casts between []byte and string (called inside package util): identity on list N
+			return t.expr(x.Args[0])
+		}
 		if fi, ok := t.T.byObj[o]; ok {
 			t.addCall(fi)
 			if len(x.Args) != len(fi.params) {
@@ -453,6 +458,28 @@ func (t *ftr) call(x *ast.CallExpr) (string, gtype) {
 				case "github.com/relex/slog-agent/util.StringFromBytes", "github.com/relex/slog-agent/util.BytesFromString":
 					// zero-copy casts between []byte and string: identity on list N (aliasing is not represented)
 					return t.expr(x.Args[0])
+				}
+				for _, ex := range t.T.sp.Externals {
+					if ex.Func != path+"."+f.Sel.Name {
+						continue
+					}
+					if len(ex.Params) != len(x.Args) {
+						t.fail(x, "external %s declared with %d parameters, called with %d", ex.Func, len(ex.Params), len(x.Args))
+					}
+					parts := []string{ex.Coq}
+					for i, a := range x.Args {
+						s, g := t.expr(a)
+						if kindName(g) != ex.Params[i] {
+							t.fail(a, "argument %d of external %s has type %s, declared %s", i, ex.Func, g.coq(), ex.Params[i])
+						}
+						parts = append(parts, s)
+					}
+					for _, k := range []kind{kInt, kByte, kBool, kBytes, kErr, kBools} {
+						if kindName(gtype{k: k}) == ex.Result {
+							return t.emit(strings.Join(parts, " ")), gtype{k: k}
+						}
+					}
+					t.fail(x, "external %s: unknown result kind %q", ex.Func, ex.Result)
 				}
 				t.fail(x, "call of %s.%s (no model of this library function)", path, f.Sel.Name)
 			}
